@@ -144,8 +144,20 @@ fn recipe_for(prop: &str) -> Recipe {
         "C06" => Recipe { setup: MOVE_SETUP, focus: &[(Kind::Move, 10), (Kind::Region, 4)], api_scrollback: true, ..base },
         "C07" => Recipe { setup: MOVE_SETUP, focus: &[(Kind::Erase, 4), (Kind::WideEdit, 1)], api_scrollback: true, ..base },
         "C08" => Recipe { setup: MOVE_SETUP, focus: &[(Kind::Shift, 4), (Kind::WideEdit, 1)], api_scrollback: true, ..base },
-        "C09" => Recipe { setup: &[(Kind::Sgr, 5), (Kind::Text, 2), (Kind::SaveRestore, 1)], focus: &[(Kind::Sgr, 1)], ..base },
-        "C10" => Recipe { setup: &[(Kind::Mode, 5), (Kind::Text, 3), (Kind::Alt, 1)], focus: &[(Kind::Mode, 1)], api_scrollback: true, ..base },
+        "C09" => Recipe {
+            // every pen-to-pen change the crate emits: the contents emitters change pens between cells,
+            // around erase runs and around the cursor fix-up
+            setup: &[(Kind::Sgr, 8), (Kind::Text, 3), (Kind::TextMargin, 3), (Kind::Erase, 2), (Kind::Move, 2), (Kind::Ctl, 1), (Kind::SaveRestore, 1)],
+            focus: &[(Kind::Sgr, 6), (Kind::TextMargin, 1), (Kind::Erase, 1)],
+            ..base
+        },
+        "C10" => Recipe {
+            // cursor visibility travels with the contents emitters: the screens they run on matter too
+            setup: &[(Kind::Mode, 8), (Kind::Text, 3), (Kind::TextMargin, 4), (Kind::Erase, 3), (Kind::Move, 2), (Kind::Shift, 1), (Kind::Alt, 1), (Kind::Ctl, 1)],
+            focus: &[(Kind::Mode, 6), (Kind::Erase, 1), (Kind::TextMargin, 1)],
+            api_scrollback: true,
+            ..base
+        },
         "C11" => Recipe {
             setup: ALL_KINDS,
             focus: &[(Kind::Alt, 6), (Kind::SaveRestore, 6), (Kind::Text, 2), (Kind::TextMargin, 2), (Kind::WideEdit, 2), (Kind::Erase, 1), (Kind::Move, 2), (Kind::Sgr, 1), (Kind::Region, 1), (Kind::Shift, 2)],
@@ -311,10 +323,13 @@ fn queries(ctx: &mut Ctx) {
         "C02" => {
             ctx.sess.checked("X state 0", "X");
             ctx.sess.checked("X contents 1", "X");
+            ctx.sess.checked("K 0", "K");
+            ctx.sess.checked("K 1", "K");
         }
         "C09" => {
             ctx.sess.checked("F attrs", "F");
             ctx.sess.checked("X contents 0", "X");
+            ctx.sess.checked("F contents", "F");
         }
         "C10" => {
             ctx.sess.checked("F state", "F");
@@ -488,8 +503,90 @@ fn api_sanity(ctx: &mut Ctx) {
     }
 }
 
+/// very large screens (tens of thousands of columns or lines, up to the u16 limit): a short fixed
+/// script at the far edge, where 16-bit arithmetic, fixed-size digit buffers and `usize` / `u16`
+/// conversions would show.  Operations whose cost in the MODEL is quadratic in the dimension (a
+/// backward erase from the far right, ICH / SU / SD with a count of the order of the dimension) are kept
+/// small; everything else takes parameters up to 65535.
+fn huge_screens(ctx: &mut Ctx) {
+    let wide = "\u{4e00}";
+    let col_sizes: &[(u64, u64)] = if ctx.thorough { &[(2, 40000), (1, 65535), (2, 10001), (1, 32769), (3, 12000)] } else { &[(2, 40000), (1, 65535)] };
+    for &(rows, cols) in col_sizes {
+        ctx.case_start = ctx.sess.ops.len();
+        ctx.sess.new_case(rows, cols, 1, "none", "huge");
+        let h = cols;
+        let steps: Vec<String> = vec![
+            format!("\x1b[1;{}Hab{wide}", h - 3),
+            format!("\x1b[{}G\x1b[41m\x1b[65535X", h - 200),
+            format!("\x1b[1;{}Hx\x1b[1;5H", h - 1000),
+            format!("\x1b[m\x1b[{}Gq{wide}r\x1b[{}G\x1b[65535P", h - 30, h - 28),
+            format!("\x1b[{}G\x1b[5@", h - 20),
+            format!("\x1b[{}G\t", h - 300),
+            format!("\x1b[{}G\t\t", h - 9),
+            format!("\x1b[{}G\t", h - 2),
+            format!("\x1b[65535C"),
+            format!("\x1b[65535D\x1b[{}C", h - 2),
+            format!("\x1b[{}G\x1b[K", h - 2),
+            format!("\x1b[4G\x1b[1K"),
+            format!("\x1b[{};{}H{wide}{wide}", rows, h - 2),
+            format!("\x1b[1;65535Hz\x1b[32my"),
+            format!("\x1b[{}G\x1b[31mw\x1b[1;2H", h - 11000),
+        ];
+        for (k, st) in steps.iter().enumerate() {
+            ctx.sess.checked(&format!("P {}", hex(st.as_bytes())), "Huge");
+            ctx.sess.checked("D", "D:Huge");
+            if k % 4 == 3 {
+                ctx.sess.checked("I", "I");
+            }
+        }
+        ctx.sess.checked("F state", "F");
+        ctx.sess.checked("T", "T");
+        ctx.sess.checked(&format!("R {} 40", h - 20), "R");
+        ctx.sess.checked(&format!("RF {} 12", h - 12), "RF");
+        ctx.sess.checked(&format!("C 0 {} {} 3", h - 5, rows - 1), "C");
+        ctx.sess.checked("F cursor", "F");
+        ctx.sess.snapshot(0);
+        ctx.sess.checked(&format!("P {}", hex(format!("\x1b[1;{}HQ\x1b[1;3H", h - 10500).as_bytes())), "Huge");
+        ctx.sess.checked("X state 0", "X");
+        let mut dirty = None;
+        let mut chain = None;
+        run_oracle(ctx, &mut dirty, &mut chain);
+    }
+    let row_sizes: &[(u64, u64)] = if ctx.thorough { &[(40000, 2), (65535, 1), (10001, 3)] } else { &[(40000, 2)] };
+    for &(rows, cols) in row_sizes {
+        ctx.case_start = ctx.sess.ops.len();
+        ctx.sess.new_case(rows, cols, 2, "none", "huge");
+        let r = rows;
+        let steps: Vec<String> = vec![
+            format!("\x1b[{};1Hx\r\n\ny", r - 1),
+            format!("\x1b[65535;1Hz\x1b[65535A"),
+            format!("a\x1b[65535B"),
+            format!("\x1b[{};{}r\x1b[{};1Hb\n\n", r - 5, r, r),
+            format!("\x1b[{};1H\x1bM\x1b[3L\x1b[2M", r - 5),
+            format!("\x1b[r\x1b[5S\x1b[3T"),
+            format!("\x1b[{}d\x1b[41m\x1b[J", r - 2),
+            format!("\x1b[{};1Hcd\x1b[12000;1He", r),
+        ];
+        for st in &steps {
+            ctx.sess.checked(&format!("P {}", hex(st.as_bytes())), "Huge");
+            ctx.sess.checked("D", "D:Huge");
+        }
+        ctx.sess.checked("I", "I");
+        ctx.sess.checked("F state", "F");
+        ctx.sess.checked("T", "T");
+        ctx.sess.checked("B 1", "B");
+        ctx.sess.checked("D", "D:B");
+        let mut dirty = None;
+        let mut chain = None;
+        run_oracle(ctx, &mut dirty, &mut chain);
+    }
+}
+
 /// deterministic templates run before the random cases
 fn templates(ctx: &mut Ctx) {
+    if matches!(ctx.prop.as_str(), "C01" | "C03" | "C05" | "C06" | "C07" | "C08" | "C13" | "C14" | "C15" | "C02") {
+        huge_screens(ctx);
+    }
     if matches!(ctx.prop.as_str(), "C03" | "C18") {
         api_sanity(ctx);
     }
@@ -807,6 +904,28 @@ fn run_generic(ctx: &mut Ctx, n_cases: u64) {
     }
 }
 
+/// a chunk through `impl io::Write`: write, write_all, or write_vectored (a short slice in front of the
+/// rest, or three slices) — chosen from the chunk itself so that a replay is exact.  Returns the op
+/// line and the pieces the crate receives in separate calls (the default write_vectored takes one
+/// slice per call).
+fn write_plan(ch: &[u8], ci: usize) -> (String, Vec<Vec<u8>>) {
+    let cuts: Vec<usize> = match (ch.len() + ci) % 4 {
+        1 if ch.len() >= 2 => vec![2.min(ch.len() - 1)],
+        2 if ch.len() >= 3 => vec![1, ch.len() / 2 + 1],
+        0 => return (format!("WA {}", hex(ch)), vec![ch.to_vec()]),
+        _ => return (format!("W {}", hex(ch)), vec![ch.to_vec()]),
+    };
+    let mut pieces = vec![];
+    let mut i = 0;
+    for &c in &cuts {
+        pieces.push(ch[i..c].to_vec());
+        i = c;
+    }
+    pieces.push(ch[i..].to_vec());
+    let cs: Vec<String> = cuts.iter().map(ToString::to_string).collect();
+    (format!("WV {} {}", hex(ch), cs.join(",")), pieces)
+}
+
 /// C04: the same byte string whole, at every single cut, byte-at-a-time, random multi-cuts, via Write
 fn run_c04(ctx: &mut Ctx, n_cases: u64) {
     // deterministic templates first: every C1 control character as UTF-8, every boundary character
@@ -886,8 +1005,8 @@ fn run_c04(ctx: &mut Ctx, n_cases: u64) {
         let reference = |ctx: &mut Ctx, chunks: &[&[u8]], via_write: bool, tag: &str| -> (String, String) {
             ctx.case_start = ctx.sess.ops.len();
             ctx.sess.new_case(rows, cols, sb, if via_write { "plain" } else { "none" }, "C04");
-            for ch in chunks {
-                let line = if via_write { format!("W {}", hex(ch)) } else { format!("P {}", hex(ch)) };
+            for (ci, ch) in chunks.iter().enumerate() {
+                let line = if via_write { write_plan(ch, ci).0 } else { format!("P {}", hex(ch)) };
                 ctx.sess.checked(&line, tag);
             }
             let d = ctx.sess.checked("D", "D:chunk");
@@ -946,8 +1065,13 @@ fn run_c04(ctx: &mut Ctx, n_cases: u64) {
             ctx.oracle_cases += 1;
             if (got.0 != whole.0 || (!via_write && got.1 != whole.1)) && !ctx.sess.dead {
                 let split_desc: Vec<String> = parts.iter().map(|p| hex(p)).collect();
-                // classification of the known findings
-                let key = c04_key(&bytes, &parts, &whole, &got);
+                // classification of the known findings: by the pieces the crate really received
+                let eff: Vec<Vec<u8>> = if via_write {
+                    parts.iter().enumerate().flat_map(|(ci, ch)| write_plan(ch, ci).1).filter(|p| !p.is_empty()).collect()
+                } else {
+                    parts.clone()
+                };
+                let key = c04_key(&bytes, &eff, &whole, &got);
                 let ops = ctx.sess.ops[ctx.case_start..].to_vec();
                 let mut all = vec![format!("N {rows} {cols} {sb} none"), format!("P {}", hex(&bytes)), "D".into(), "E".into()];
                 all.extend(ops);
